@@ -34,9 +34,17 @@ static int write_case(const char *path, const wcfg_t *cfg, const model_t *m)
 /* ------------------------------------------------------------------ C01 */
 static char *hexarg(const uint8_t *p, size_t n)
 {
+	/* the tool takes hex digits in either case ("-k ABCD" in its usage text): lower, upper and per-digit mixed spellings in turn */
+	static unsigned spelling;
+	unsigned mode = spelling++ % 3;
 	char *s = xmalloc(2 * n + 1);
-	for (size_t i = 0; i < n; i++) sprintf(s + 2 * i, "%02x", p[i]);
+	for (size_t i = 0; i < n; i++) {
+		static const char lo[] = "0123456789abcdef", up[] = "0123456789ABCDEF";
+		s[2 * i] = (mode == 1 || (mode == 2 && (i & 1))) ? up[p[i] >> 4] : lo[p[i] >> 4];
+		s[2 * i + 1] = (mode == 1 || (mode == 2 && !(i & 1))) ? up[p[i] & 15] : lo[p[i] & 15];
+	}
 	s[2 * n] = 0;
+	statf(1, "dump.hex_argument_spelling.%s", mode == 0 ? "lower" : mode == 1 ? "upper" : "mixed");
 	return s;
 }
 
